@@ -222,11 +222,9 @@ c18_confine!(c18_q_confine, 4);
 #[cfg(feature = "thorough")]
 c18_circle_band!(c18_t_circle_band_d255, 8);
 #[cfg(feature = "thorough")]
-c18_ellipse_band!(c18_t_ellipse_band_s127, 7);
+c18_ellipse_band!(c18_t_ellipse_band_s63, 6);
 #[cfg(feature = "thorough")]
-c18_contiguous!(c18_t_contiguous_round_s127, 7, 0);
-#[cfg(feature = "thorough")]
-c18_rr!(c18_t_rr_s63, 6);
+c18_contiguous!(c18_t_contiguous_round_s31, 5, 0);
 #[cfg(feature = "thorough")]
 c18_confine!(c18_t_confine_s31, 5);
 
